@@ -13,7 +13,7 @@ Close Scope Q_scope.
 (* ================================================================================================ *)
 Lemma row_block_eq (bk : backend) (r : row) (n : nat) :
   row_block bk r n =
-  Blk (rds r n) (app_stmts (rss (b_idiom bk) r (n + row_size r) 0 n)
+  Blk (rds r n) (app_stmts (rss (b_idiom bk) r (n + row_size r) 0 (nt_first (n + row_size r) r) n)
                            (app_stmts (rsets r (n + row_size r) 0 n)
                                       (SCons (SFill (b_fill bk)) (trow_clears r (n + row_size r) 0)))).
 Proof. unfold row_block. rewrite trow_split, trow_sets_split. reflexivity. Qed.
@@ -22,7 +22,7 @@ Lemma members_final_init (r : row) : forall nf k ms vs, members_final r nf k ms 
 Proof.
   induction r as [|[name c] t IH]; intros nf k ms vs D; destruct vs as [|v vs']; cbn [members_final members_init] in *; try exact I; try destruct D.
   split; [|eapply IH; eassumption].
-  eexists. split; [eassumption|]. destruct c; [exact I|reflexivity|exact I].
+  eexists. split; [eassumption|]. destruct c; [exact I|reflexivity|exact I|reflexivity].
 Qed.
 
 Lemma row_block_exec (bk : backend) (r : row) (n : nat) (ev : event) (st : state) :
@@ -53,7 +53,8 @@ Proof.
   assert (Sep1 : forall m, In m (rmems r nf 0) -> fget m st1 = None).
   { intros m Hm. rewrite (U1 m (NotVar m Hm)). unfold st0. rewrite fget_enter; [apply Fm, Hm|reflexivity]. }
   assert (Mi1 : mems_init r nf 0 st1) by (eapply mems_init_of; [exact M1|exact Mi]).
-  pose proof (row_exec brs ev (b_idiom bk) r nf 0 n st1 Hb D1 Mi1 Sep1 Nd) as RE.
+  assert (Hntk : n + row_size r <= nt_first nf r) by (unfold nt_first, nf; lia).
+  pose proof (row_exec brs ev (b_idiom bk) r nf 0 (nt_first nf r) n st1 Hntk Hb D1 Mi1 Sep1 Nd) as RE.
   unfold drow.
   destruct (drow1 ev r) as [ps|f|k]; cbn [rbind]; [| rewrite RE; reflexivity | exact I].
   destruct RE as (st2 & E2 & R2 & U2 & Mo2 & Dn2). rewrite E2. cbn [rbind]. rewrite exec_stmts_app.
@@ -540,8 +541,12 @@ Proof. induction r as [|[name c] t IH]; intros nf k; cbn [row_members rmems map 
 Lemma prow_members_names (cols : prow) : forall nf k, map m_name (prow_members cols nf k) = pmems cols nf k.
 Proof. induction cols as [|[name body] t IH]; intros nf k; cbn [prow_members pmems map m_name]; [reflexivity|]. rewrite IH. reflexivity. Qed.
 
-Lemma col_default (c : column) : match c with ColVec _ _ _ => default_value (col_type c) = VVec [] | _ => True end.
-Proof. destruct c as [e|cr ps body|cr ps body line]; [exact I| |exact I]. cbn [col_type]. unfold default_value. rewrite vec_is_vector. reflexivity. Qed.
+Lemma col_default (c : column) : match c with ColVec _ _ _ | ColVec2 _ _ _ _ _ => default_value (col_type c) = VVec [] | _ => True end.
+Proof.
+  destruct c as [e|cr ps body|cr ps body line|c1 g1 c2 g2 body]; try exact I; cbn [col_type]; unfold default_value.
+  - rewrite vec_is_vector. reflexivity.
+  - destruct (btype_cases body) as [E|E]; rewrite E; reflexivity.
+Qed.
 
 Lemma members_init_initial (L : list member) (r : row) : forall nf k,
   NoDup (map m_name L) -> incl (row_members r nf k) L -> members_init r nf k (initial_members L).
